@@ -390,7 +390,7 @@ def _pivot_schema(mod, clsname):
   return fn, out, returned, rets[0].lineno
 
 
-@rule("R17.2", "C17", floor=10)
+@rule("R17.2", "C17", floor=14)
 def r17_2(ctx):
   """And/Or families instantiate the combinator as mirror images."""
   mod = get_module(ctx, BQ)
